@@ -9,7 +9,7 @@ REG = os.path.expanduser("~/.cargo/registry/src")
 
 
 def _crate_dir(name):
-    lock = open("/repo/Cargo.lock").read()
+    lock = open(os.path.join(os.environ.get("VERIF_REPO", "/repo"), "Cargo.lock")).read()
     m = re.search(r'name = "%s"\nversion = "([^"]+)"' % re.escape(name), lock)
     if not m:
         raise RuntimeError(f"{name} not in /repo/Cargo.lock")
